@@ -136,6 +136,12 @@ func (h *Handler) Handle(req, resp dhcpv6.DHCPv6) (dhcpv6.DHCPv6, bool) {
 			// which is equivalent to no hint
 			hints = []*dhcpv6.OptIAPrefix{{Prefix: &net.IPNet{}}}
 		}
+		for _, hint := range hints {
+			if hint.Prefix == nil {
+				// An IAPrefix of length 0 is decoded without a prefix: treat it as an empty hint
+				hint.Prefix = &net.IPNet{}
+			}
+		}
 
 		// Bitmap to track which requests are already satisfied or not
 		satisfied := bitset.New(uint(len(hints)))
